@@ -583,8 +583,6 @@ def exit_constraint_not_evaluable(command: str, exc: Exception, stderr):
     sys.exit(DATA_FORMAT_ERROR)
 
 
-
-
 def create(stdout, stderr, parser: ArgumentParser, args: Namespace):
     command = args.command
     out_dir = args.output_dir
@@ -948,6 +946,7 @@ def get_input_string(
     :return: A derivation tree of the given input.
     """
 
+    inp_with_line_terminator: Optional[str] = None
     if hasattr(args, "input_string") and args.input_string:
         inp = args.input_string
     else:
@@ -971,7 +970,12 @@ def get_input_string(
         inp = files[possible_inputs[0]]
 
         # Somehow, spurious newlines appear when reading files...
-        inp = inp[:-1] if inp.endswith("\n") else inp
+        if inp.endswith("\n"):
+            # ...but the line terminator can also be part of the input, e.g., in a
+            # file written by `isla solve --output-dir` for a line-oriented language.
+            # We try the file's content as it is if the shortened one cannot be parsed.
+            inp_with_line_terminator = inp
+            inp = inp[:-1]
 
     def solver():
         return ISLaSolver(grammar, constraint)
@@ -979,18 +983,25 @@ def get_input_string(
     def graph():
         return gg.GrammarGraph.from_grammar(grammar)
 
-    def tree_from_json() -> DerivationTree:
-        # Raises an exception if `inp` is not the JSON representation of a valid
+    def tree_from_json(text: str) -> DerivationTree:
+        # Raises an exception if `text` is not the JSON representation of a valid
         # derivation tree (e.g., if it is a JSON number or string). In that case,
-        # we fall back to parsing `inp` as a string.
-        tree = DerivationTree.from_parse_tree(json.loads(inp))
+        # we fall back to parsing `text` as a string.
+        tree = DerivationTree.from_parse_tree(json.loads(text))
         if not graph().tree_is_valid(tree):
             raise ValueError("Not a valid derivation tree for the given grammar")
         return tree
 
-    return safe(tree_from_json)().lash(
-        lambda _: safe(lambda: solver().parse(inp, skip_check=True))()
-    )
+    def parse_input(text: str) -> Result[DerivationTree, Exception]:
+        return safe(lambda: tree_from_json(text))().lash(
+            lambda _: safe(lambda: solver().parse(text, skip_check=True))()
+        )
+
+    result = parse_input(inp)
+    if not is_successful(result) and inp_with_line_terminator is not None:
+        return parse_input(inp_with_line_terminator).lash(lambda _: result)
+
+    return result
 
 
 def create_solve_parser(subparsers, stdout, stderr):
